@@ -10,6 +10,7 @@ import re
 from collections import Counter
 
 import core
+import used
 from core import fseq, fseqs, fbool, pseq, pseqs, guarded
 
 PROP = "C13"
@@ -97,11 +98,47 @@ def _digits(groups):
     return "_".join("".join(str(d) for d in g) for g in groups)
 
 
+def _nearby(perms):
+    """bases close to `perms`: without its last element, with the last two entries of every permutation swapped,
+    all reversed"""
+    perms = [tuple(p) for p in perms]
+    res = []
+    if len(perms) > 1:
+        res.append(perms[:-1])
+    res.append([p[:-2] + (p[-1], p[-2]) if len(p) >= 2 else p for p in perms])
+    res.append([p[::-1] for p in perms])
+    return [b for b in res if b != perms]
+
+
+def _neighbours(op, perms):
+    for b in _nearby(perms):
+        try:
+            _fn(op)([Perm(p) for p in b])
+        except Exception:  # pylint: disable=broad-except
+            pass
+
+
+def _av_twice(make, which):
+    """the verdict of a class object, asked twice on the same object, after a verdict on a nearby class"""
+    cls = make()
+    pick = lambda c: {"fin": c.is_finite, "poly": c.is_polynomial, "ins": c.is_insertion_encodable}[which]  # noqa: E731
+    r1 = fbool(pick(cls)())
+    for other in ("fin", "poly", "ins"):
+        try:
+            {"fin": cls.is_finite, "poly": cls.is_polynomial, "ins": cls.is_insertion_encodable}[other]()
+        except Exception:  # pylint: disable=broad-except
+            pass
+    r2 = fbool(pick(cls)())
+    return r1 if r1 == r2 else "UNSTABLE:%s|%s" % (r1, r2)
+
+
 def impl(op, a):
     if op in OPS:
         perms = pseqs(a[1])
 
         def f():
+            if used.sel(op, a, 2):              # (a deterministic half of the lines)
+                _neighbours(op, perms)          # the same verdict function on DIFFERENT nearby bases first
             warm = _call(op, a[0], perms)       # whatever the memo tables hold from earlier lines
             _clear()
             cold = _call(op, a[0], perms)       # empty memo tables
@@ -115,8 +152,13 @@ def impl(op, a):
         return guarded(lambda: "fin=%s poly=%s" % (fbool(PU.is_finite(perms)), fbool(PU.is_polynomial(perms))))
     if op == "av":
         def f():
-            cls = Av([Perm(p) for p in pseqs(a[1])])
-            return fbool({"fin": cls.is_finite, "poly": cls.is_polynomial, "ins": cls.is_insertion_encodable}[a[0]]())
+            for b in _nearby(pseqs(a[1]))[:2]:
+                try:
+                    pick = Av([Perm(p) for p in b])
+                    {"fin": pick.is_finite, "poly": pick.is_polynomial, "ins": pick.is_insertion_encodable}[a[0]]()
+                except Exception:  # pylint: disable=broad-except
+                    pass
+            return _av_twice(lambda: Av([Perm(p) for p in pseqs(a[1])]), a[0])
         return guarded(f)
     if op == "avmesh":
         def f():
@@ -124,8 +166,7 @@ def impl(op, a):
             for t in a[1].split(";"):
                 p, c = t.split("/")
                 patts.append(Perm(pseq(p)) if c == "P" else MeshPatt(Perm(pseq(p)), core.pcells(c)))
-            cls = Av(patts)
-            return fbool({"fin": cls.is_finite, "poly": cls.is_polynomial, "ins": cls.is_insertion_encodable}[a[0]]())
+            return _av_twice(lambda: Av(patts), a[0])
         return guarded(f)
     if op == "clipoly":
         def f():
